@@ -155,6 +155,14 @@ func checkC15(p *Prog, r *Report) {
 		r.OK(kp("REACH", "handlers#no-bank-mutator"), "no coin-moving bank function or interface method is reachable from the 14 handlers, their stateless methods, or the aol/did/pnft block hooks (definite edges through module code and the x/nft keeper)", "x/*",
 			fmt.Sprintf("%d entry functions, %d functions reachable, %d interface invocations inspected", len(entries), len(reach.Order), len(reach.Invokes)))
 	}
+	if r.Tier == "thorough" {
+		vtaCrossCheck(p, r, kp("REACH", "vta-cross-check"), entries, func(f *ssa.Function) (string, bool) {
+			if pkgPathOf(f) == bankKeeperPath && f.Signature.Recv() != nil && isCoinMover(f.Name()) {
+				return "coin mover " + FuncName(f), true
+			}
+			return "", false
+		}, reach, nil)
+	}
 	// positive control: the same walk from the burn EndBlock does find a coin mover
 	if am := p.Named(Rel("x/burn"), "AppModule"); am != nil {
 		if eb := p.MethodOf(am, "EndBlock"); eb != nil {
